@@ -126,6 +126,35 @@ std::string handle(const std::string& op, Args& a)
 		a.end();
 		return run([&](Out& o) { o << (int) Lists_Equal(x, y); });
 	}
+	if(op == "c19.aliasd")	 // every two-list template with THE SAME vector object as both arguments (directly, through a second reference) and with an equal copy
+	{
+		auto x = dbl_elems(a);
+		a.end();
+		return run_forked([&](Out& o) {
+			const std::vector<double>& ref = x;
+			std::vector<double> copy	   = x;
+			o << (int) Lists_Equal(x, x) << (int) Lists_Equal(x, ref) << (int) Lists_Equal(x, copy);
+			o.list(Combine_Lists(x, x));
+			auto t = Transpose_Lists(x, x);
+			o << t.size();
+			for(auto& row : t)
+				o.list(row);
+		});
+	}
+	if(op == "c19.aliasd2")	  // nested: Lists_Equal(vv, vv), through a reference, with a copy; Combine_Lists(vv, vv) checked by its sizes
+	{
+		auto x = dbl_lists(a);
+		a.end();
+		return run_forked([&](Out& o) {
+			const std::vector<std::vector<double>>& ref = x;
+			std::vector<std::vector<double>> copy		= x;
+			o << (int) Lists_Equal(x, x) << (int) Lists_Equal(x, ref) << (int) Lists_Equal(x, copy);
+			auto c = Combine_Lists(x, x);
+			o << c.size();
+			for(auto& row : c)
+				o.list(row);
+		});
+	}
 	if(op == "c19.combine")
 	{
 		auto x = a.ints(), y = a.ints();
